@@ -46,6 +46,11 @@ type Endpoint struct {
 	RecvDecoys   int // decoys skipped before the version packet
 	VersionBytes []byte
 
+	// ReservedBits, when set, supplies the seven reserved header bits of every packet sent (receivers must ignore
+	// them); ReservedSent counts the packets that went out with a non-zero value.
+	ReservedBits func() byte
+	ReservedSent int
+
 	// SecretFunc, when set, replaces the reference ECDH in RecvKey (see SetTheirsWithSecret).
 	SecretFunc func(theirs [64]byte) [32]byte
 
@@ -179,6 +184,18 @@ func (e *Endpoint) SetTheirsWithSecret(theirs [64]byte, secret [32]byte) {
 	e.keyRecv = true
 }
 
+// reserved returns the reserved header bits of the next packet sent (ReservedBits nil: zero, as today's senders do).
+func (e *Endpoint) reserved() byte {
+	if e.ReservedBits == nil {
+		return 0
+	}
+	b := e.ReservedBits() &^ IgnoreBit
+	if b != 0 {
+		e.ReservedSent++
+	}
+	return b
+}
+
 // SendTerminatorAndVersion sends our garbage terminator, the decoys (any contents) and the empty
 // version packet; the first packet authenticates our garbage.
 func (e *Endpoint) SendTerminatorAndVersion(decoys [][]byte) error {
@@ -189,10 +206,10 @@ func (e *Endpoint) SendTerminatorAndVersion(decoys [][]byte) error {
 	out := append([]byte(nil), e.SendTerm[:]...)
 	aad := e.SentGarbage
 	for _, d := range decoys {
-		out = append(out, e.Send.EncPacket(d, aad, true)...)
+		out = append(out, e.Send.EncPacketReserved(d, aad, true, e.reserved())...)
 		aad = nil
 	}
-	out = append(out, e.Send.EncPacket(nil, aad, false)...)
+	out = append(out, e.Send.EncPacketReserved(nil, aad, false, e.reserved())...)
 	if err := e.write(out); err != nil {
 		return e.fail(err)
 	}
@@ -265,7 +282,7 @@ func (e *Endpoint) SendPacket(contents []byte, ignore bool) ([]byte, error) {
 	if !e.termSent {
 		return nil, ErrState
 	}
-	pkt := e.Send.EncPacket(contents, nil, ignore)
+	pkt := e.Send.EncPacketReserved(contents, nil, ignore, e.reserved())
 	if err := e.write(pkt); err != nil {
 		return pkt, e.fail(err)
 	}
